@@ -56,10 +56,10 @@ pub trait Table: Send + Sync {
         if level == 0 {
             vec![Ctor::new(2, 0, 2)]
         } else if self.ctor_fields().is_empty() {
-            vec![Ctor::new(2, 0, 2), Ctor::new(0, 0, 0), Ctor::new(1, 0, 1)]
+            vec![Ctor::new(2, 0, 2), Ctor::new(0, 0, 0), Ctor::new(1, 0, 1), Ctor::new(3, 0, 2), Ctor::new(4, 0, 2), Ctor::new(5, 0, 2), Ctor::new(6, 0, 2)]
         } else {
             // constructor arguments too: header variant x argument filling
-            vec![Ctor::new(2, 0, 2), Ctor::new(0, 0, 0), Ctor::new(1, 0, 1), Ctor::new(2, 0, 3), Ctor::new(0, 0, 1), Ctor::new(1, 0, 0)]
+            vec![Ctor::new(2, 0, 2), Ctor::new(0, 0, 0), Ctor::new(1, 0, 1), Ctor::new(2, 0, 3), Ctor::new(0, 0, 1), Ctor::new(1, 0, 0), Ctor::new(3, 0, 10), Ctor::new(4, 0, 11), Ctor::new(5, 0, 2), Ctor::new(6, 0, 9)]
         }
     }
     /// operations enabled after `hist`, simplest first. level 0 = one op per kind (lanes),
